@@ -37,6 +37,7 @@ var (
 		"pkg":    {"p/a", "p/b"},
 		"commit": {"c1", "c2", "c10"},
 		"note":   {"before", "after"},
+		"toolchain": {"go1.21", "go1.22"},
 	}
 	cfgKeys   = []string{"goos", "goarch", "pkg", "commit", "note"}
 	baseNames = []string{"Encode", "Decode", "Sort", "Hash"}
@@ -50,7 +51,7 @@ var (
 
 	tablePool  = []string{".config", "goos", "pkg", "", ".config,.name", "commit", ".file", "goos,goarch", ".config@alpha"}
 	rowPool    = []string{"/bs@num,.name", "/bs@num,/format", ".name@alpha,/bs@num", ".fullname", ".name", "/format", ".name,/size", ".fullname@alpha", "/size@num", "pkg,.name", ".name@alpha,/format", "/gomaxprocs", "/size@(1k 10 2k)"}
-	colPool    = []string{"/bs@num", "/bs@num,.file", ".file", "goos", "/format", "commit", ".file@alpha", "/format@(gob json)", "note", "pkg", "commit@num", "/size", ".name"}
+	colPool    = []string{"toolchain", "/bs@num", "/bs@num,.file", ".file", "goos", "/format", "commit", ".file@alpha", "/format@(gob json)", "note", "pkg", "commit@num", "/size", ".name"}
 	ignorePool = []string{"", ".file", "commit", "goos,commit", "note", "/size", ".fullname", "pkg", ".config", "/format,/size", ".name"}
 	filterPool = []string{"*", ".name:Encode", "/format:json", "-.name:Sort", "goos:linux", ".unit:B/op", ".unit:(sec/op OR widgets)", "-/size:1k", ".file:a.txt OR .file:b.txt", "pkg:p/a AND -.name:Hash"}
 	alphaPool  = []string{"0.05", "0.01", "0.5", "1", "0", "0.2"}
@@ -83,6 +84,22 @@ func genCase(r *hx.Rand, big bool) *Case {
 	// "collide" mode: multi-field projections whose value tuples have colliding concatenations
 	// (("1","10") vs ("11","0"), ("x","") vs ("","x"))
 	collideMode := !holesMode && r.Chance(1, 10)
+	// "cfgclear" mode: a file-configuration key is set in the results seen first and cleared
+	// (`key:`) later, or the other way round; it is the column, row or table key, so that an
+	// EMPTY value is observed second (or first) and tables go from a value back to empty
+	clearMode := !holesMode && !collideMode && r.Chance(1, 8)
+	clearKey := hx.Pick(r, []string{"toolchain", "note", "commit"})
+	clearSetFirst := r.Bool()
+	// "specials" mode: +Inf, -Inf and -0 among the measurements; "nan" mode: also NaN, but only
+	// in single-column runs (one file, no -col, no duplicate path): two compared cells with a NaN
+	// make go-moremath's U test loop forever (reported, see notes/C14.md)
+	specialsMode := r.Chance(1, 6)
+	nanMode := !holesMode && !collideMode && !clearMode && r.Chance(1, 8)
+	if nanMode {
+		specialsMode = true
+		nfiles = 1
+		c.tag("nan")
+	}
 	// "ties" mode: differently spelled but numerically equal values in a non-last @num field
 	tiesMode := r.Chance(1, 8)
 	var names []string
@@ -142,6 +159,7 @@ func genCase(r *hx.Rand, big bool) *Case {
 	// base magnitude per (name, unit): shared by all files so that ratios are meaningful,
 	// with an occasional per-file shift
 	mag := map[string]float64{}
+	hasZero := false
 	for _, n := range names {
 		for _, u := range units {
 			m := hx.Pick(r, magPool)
@@ -151,6 +169,7 @@ func genCase(r *hx.Rand, big bool) *Case {
 			}
 			if m == 0 {
 				c.tag("zero")
+				hasZero = true
 			}
 			mag[n+"|"+u] = m
 		}
@@ -187,7 +206,24 @@ func genCase(r *hx.Rand, big bool) *Case {
 		fileCount := 6 + r.Intn(20)
 		for bi := 0; bi < nblocks; bi++ {
 			// configuration lines of this block
+			if clearMode {
+				if nblocks < 2 {
+					nblocks = 2 + r.Intn(2)
+				}
+				set := (bi%2 == 0) == clearSetFirst
+				if set {
+					v := hx.Pick(r, cfgPool[clearKey])
+					cfg[clearKey] = v
+					fmt.Fprintf(&sb, "%s: %s\n", clearKey, v)
+				} else if bi > 0 || r.Chance(1, 2) {
+					delete(cfg, clearKey)
+					fmt.Fprintf(&sb, "%s:\n", clearKey)
+				}
+			}
 			for _, k := range cfgKeys {
+				if clearMode && k == clearKey {
+					continue
+				}
 				if (bi == 0 && r.Chance(1, 2)) || (bi > 0 && r.Chance(1, 4)) {
 					v := hx.Pick(r, cfgPool[k])
 					if bi == 0 && fi > 0 && r.Chance(2, 3) && k != "note" && k != "commit" {
@@ -242,7 +278,19 @@ func genCase(r *hx.Rand, big bool) *Case {
 						if exactUnit == u && r.Chance(4, 5) {
 							v = mag[n+"|"+u] * shift
 						}
-						fmt.Fprintf(&l, " %s %s", fnum(v), u)
+						vs := fnum(v)
+						if specialsMode && r.Chance(1, 6) {
+							pool := []string{"+Inf", "-Inf", "Inf"}
+							if nanMode {
+								pool = append(pool, "NaN", "NaN", "NaN")
+							}
+							if !hasZero {
+								pool = append(pool, "-0") // never next to a +0 (see notes/C15.md)
+							}
+							vs = hx.Pick(r, pool)
+							c.tag("specials")
+						}
+						fmt.Fprintf(&l, " %s %s", vs, u)
 					}
 					lines = append(lines, l.String())
 				}
@@ -277,16 +325,22 @@ func genCase(r *hx.Rand, big bool) *Case {
 			c.Args = append(c.Args, n)
 		}
 	}
-	if r.Chance(1, 8) {
+	if !nanMode && r.Chance(1, 8) {
 		c.Args = append(c.Args, c.Files[r.Intn(len(c.Files))].Name)
 		c.tag("duppath")
 	}
-	if r.Chance(1, 20) {
+	if !nanMode && r.Chance(1, 20) {
 		c.Args = append(c.Args, "L="+c.Files[0].Name)
 		c.tag("duplabel")
 	}
 	// flags
-	if collideMode {
+	if nanMode {
+		c.Flags = append(c.Flags, hx.Pick(r, [][]string{nil, {"-row", ".name"}, {"-row", ".fullname@alpha"}, {"-table", "goos"}, {"-confidence", "0.5"}})...)
+	} else if clearMode {
+		c.tag("cfgclear")
+		c.Flags = append(c.Flags, hx.Pick(r, [][]string{nil, {"-col", clearKey}, {"-col", clearKey, "-ignore", ".file"}, {"-row", clearKey + ",.fullname"}, {"-table", clearKey},
+			{"-table", "goos," + clearKey}, {"-col", clearKey + ",.file"}})...)
+	} else if collideMode {
 		c.Flags = append(c.Flags, hx.Pick(r, [][]string{{"-row", "/a,/b"}, {"-col", "/a,/b", "-row", ".name"}, {"-row", ".name,/a,/b"}, {"-row", "/a,/b,.name"},
 			{"-table", "/a,/b", "-row", ".name"}})...)
 	} else if holesMode && r.Chance(1, 2) {
@@ -375,6 +429,17 @@ func corpusCases() []*Case {
 		mk([]string{"-confidence", "-0.5"}, rep("BenchmarkA 1 10 ns/op", 6), rep("BenchmarkA 1 11 ns/op", 6)),
 		mk([]string{"-alpha", "1", "-confidence", "1"}, rep("BenchmarkA 1 10 ns/op", 6), rep("BenchmarkA 1 11 ns/op", 6)),
 		mk([]string{"-alpha", "0.3"}, "BenchmarkA 1 10 ns/op\nBenchmarkA 1 12 ns/op\nBenchmarkA 1 11 ns/op\nBenchmarkA 1 13 ns/op\n", "BenchmarkA 1 14 ns/op\nBenchmarkA 1 12.5 ns/op\nBenchmarkA 1 15 ns/op\n"),
+		// the column key is set in the results seen first and cleared later: the column of the
+		// first-observed value is the baseline
+		mk([]string{"-col", "toolchain", "-ignore", ".file"}, "toolchain: go1.21\n\n"+rep("BenchmarkA 1 10 ns/op", 3)+"\ntoolchain:\n\n"+rep("BenchmarkA 1 12 ns/op", 3)),
+		mk([]string{"-col", "toolchain", "-ignore", ".file"}, rep("BenchmarkA 1 10 ns/op", 3)+"\ntoolchain: go1.21\n\n"+rep("BenchmarkA 1 12 ns/op", 3)),
+		// tables (linux,""), (linux,x), (darwin,""): a table key field going back to empty must be printed
+		mk(nil, "goos: linux\n\n"+rep("BenchmarkA 1 10 ns/op", 2)+"\nnote: x\n\n"+rep("BenchmarkA 1 11 ns/op", 2)+"\ngoos: darwin\nnote:\n\n"+rep("BenchmarkA 1 12 ns/op", 2)+
+			"\ngoos: linux\nnote: x\n\n"+rep("BenchmarkB 1 13 ns/op", 2)),
+		// NaN, infinities and -0 among the measurements
+		mk(nil, "BenchmarkA 1 5 widgets\nBenchmarkA 1 3 widgets\nBenchmarkA 1 NaN widgets\nBenchmarkB 1 +Inf widgets\nBenchmarkB 1 2 widgets\nBenchmarkB 1 NaN widgets\nBenchmarkB 1 7 widgets\nBenchmarkC 1 1 widgets\nBenchmarkC 1 NaN widgets\nBenchmarkC 1 8 widgets\nBenchmarkC 1 6 widgets\nBenchmarkC 1 2 widgets\n"),
+		mk([]string{"-row", ".name"}, "BenchmarkA/x=1 1 NaN widgets\nBenchmarkA/x=2 1 4 widgets\nBenchmarkA/x=3 1 -Inf widgets\nBenchmarkA/x=4 1 9 widgets\nBenchmarkB 1 -0 widgets\nBenchmarkB 1 1 widgets\nBenchmarkB 1 NaN widgets\nBenchmarkB 1 5 widgets\nBenchmarkB 1 3 widgets\n"),
+		mk(nil, "BenchmarkA 1 +Inf widgets\nBenchmarkA 1 3 widgets\nBenchmarkA 1 4 widgets\nBenchmarkB 1 2 widgets\n", "BenchmarkA 1 -Inf widgets\nBenchmarkA 1 4 widgets\nBenchmarkA 1 -0 widgets\nBenchmarkB 1 Inf widgets\n"),
 		// exact assumption
 		mk([]string{"-col", "note"}, "Unit text-bytes assume=exact\nnote: before\n\nBenchmarkSize 1 100 text-bytes\nBenchmarkN 1 100 text-bytes\nBenchmarkN 1 101 text-bytes\n\nnote: after\n\nBenchmarkSize 1 105 text-bytes\nBenchmarkN 1 101 text-bytes\n"),
 	}
